@@ -17,6 +17,10 @@ PROFILE = {
     # "from then on that session id is in no room and is never delivered to again": the application goes on using
     # session ids after their end (and with the wrong namespace) -- enter_room / rooms / emit to that room
     'stale_p': 0.4, 'stale_enter_p': 0.4,
+    # "for every accepted connection the disconnect handler runs exactly once ...": whatever the application's other
+    # disconnect handlers do -- some of them raise (every cause of an end: client DISCONNECT, disconnect(), loss of a
+    # transport that carries several namespaces, where the handlers of the earlier namespaces raise)
+    'disconnect_raise': 0.3,
 }
 
 STATS = collections.Counter()      # what the oracle saw (flushed into the evidence by run())
@@ -178,6 +182,8 @@ def oracle(cfg, trace, residue):
                               % (S._brief(op), dest)))
         cinv = [i for i in im['invokes'] if is_conn(i[0])]
         dinv = [i for i in im['invokes'] if is_disc(i[0])]
+        if dinv and im.get('handler_raised') and op['op'] != 'lost':
+            stat('end_with_raising_handler.other_causes')
         for slot, args in dinv:
             sid = args[-2]
             reason = args[-1]
@@ -275,11 +281,23 @@ def oracle(cfg, trace, residue):
             cf.drop(op['t'])
             half.pop(op['t'], None)
             open_t.discard(op['t'])
-            for k in [k for k in conn if k[0] == op['t']]:
+            mine = [k for k in conn if k[0] == op['t']]
+            handled = [k for k in mine if S.has_handler(cfg, k[1], 'disconnect')]
+            raised = im.get('handler_raised', 0)
+            carried = ', '.join('%s on %s' % (conn[k], k[1]) for k in mine)
+            if mine:
+                stat('transport_loss.sessions_%s' % ('1' if len(mine) == 1 else '2_or_more'))
+            if len(handled) >= 2 and raised:
+                stat('transport_loss.2_or_more_namespaces_with_disconnect_handlers.some_handler_raised')
+                if raised >= len(handled):
+                    stat('transport_loss.2_or_more_namespaces_with_disconnect_handlers.every_handler_raised')
+            for k in mine:
                 sid = conn.pop(k)
                 end(sid, k[1], 'transport_loss')
                 if S.has_handler(cfg, k[1], 'disconnect') and ended.get(sid, 0) != 1:
-                    fails.append((None, 'transport lost but the disconnect handler of %s on %s ran %d times' % (sid, k[1], ended.get(sid, 0))))
+                    fails.append((None, 'transport %s lost (it carried %d sessions: %s; %d of their disconnect handlers '
+                                        'raised) but the disconnect handler of %s on %s ran %d times'
+                                  % (op['t'], len(mine), carried, raised, sid, k[1], ended.get(sid, 0))))
         elif op['op'] == 'emit':
             # never delivered to a session that ended / was refused; other namespaces unaffected
             for tt, q in pkts:
@@ -359,7 +377,20 @@ def run(ctx):
     S.run_cases(ctx, PROFILE, ctx.scale(150, 3000), 45, oracle=oracle, nontrivial=measure, final_lose_all=True,
                 probe_pre=probe_pre, probe_post=probe_post)
     for k, v in sorted(STATS.items()):
-        ctx.count(k if k.startswith('event') else 'no_live_session.' + k, v)
+        ctx.count(k if k.startswith(('event', 'transport_loss', 'end_with')) else 'no_live_session.' + k, v)
+    ctx.coverage['ends_with_raising_disconnect_handlers'] = {
+        'rule': 'the application\'s disconnect handlers raise (scripted, p=%.2f per run) at every cause of an end: client '
+                'DISCONNECT, disconnect(), loss of a transport that carries one / several namespaces. Oracle: the '
+                'disconnect handler of EVERY session of the lost transport runs exactly once whatever the other '
+                'namespaces\' handlers did, the session is from then on in no room and never delivered to (later emits, '
+                'rooms(), engine.io write tap); also part of the model correspondence' % PROFILE['disconnect_raise'],
+        'transport_losses_with_2_or_more_sessions': STATS['transport_loss.sessions_2_or_more'],
+        'of_which_2_or_more_handled_and_some_handler_raised':
+            STATS['transport_loss.2_or_more_namespaces_with_disconnect_handlers.some_handler_raised'],
+        'of_which_every_handler_raised':
+            STATS['transport_loss.2_or_more_namespaces_with_disconnect_handlers.every_handler_raised'],
+        'ends_by_disconnect_call_or_client_DISCONNECT_whose_handler_raised': STATS['end_with_raising_handler.other_causes'],
+    }
     ctx.coverage['stale_session_id_calls'] = {
         'rule': 'server API calls (enter_room, rooms, then emit to that room) whose (sid, namespace) names no live '
                 'session: ids that ended by client DISCONNECT / disconnect() / transport loss, refused ids, live ids '
